@@ -187,6 +187,7 @@ Definition err_class (m : bytes) : Z :=
   else if pre m "Circular include" then 42
   else if pre m "Bad include name" then 43
   else if pre m "Invalid file" then 44
+  else if pre m "Duplicate file name" then 45
   else 50.
 
 (** "Include v: m" (parseFrugal wraps the error of an included file): the wrapped message *)
